@@ -235,6 +235,41 @@ def run_shard(ctx):
             if nml:
                 ctx.ctr("multiline_cell_cases")
                 compare_all(ctx, form, ml, sig, "multiline", ["xlsx", "xls", "csv"], rng)
+        # (2c) a workbook with further sheets, one of them a near miss of an absent optional sheet: every reader must report the same names
+        if i % 4 == 1:
+            ns = dict(sheets)
+            cand = []
+            if "settings" not in ns:
+                cand += ["setting", "Settings1", "stettings", "settingss"]
+            if "entities" not in ns:
+                cand += ["Entitys", "entites", "entities_"]
+            if cand:
+                nm = rng.choice(cand)
+                ns[nm] = (["a", "b"], [["1", "2"]])
+                if rng.random() < 0.5:
+                    ns["_notes"] = (["n"], [["x"]])
+                ctx.ctr("near_miss_sheet_cases")
+                compare_all(ctx, form, ns, sig, "near-miss-sheet", ["xlsx", "xls"] + (["md", "csv"] if md_representable(ns) else []), rng)
+        # (2d) a path whose suffix is not one of the exact lower-case ones: the file is still recognised and its stem still names the form
+        if i % 4 == 2:
+            from .C11 import convert_odd_path
+            fmt = rng.choice(["xlsx", "xls", "md", "csv"]) if md_representable(sheets) else rng.choice(["xlsx", "xls"])
+            suffix = rng.choice({"xlsx": [".XLSX", ".Xlsx", ".xlsm", ".XLSM", ""], "xls": [".XLS", ".Xls", ""], "md": [".MD", ".txt", ".markdown", ""], "csv": [".CSV", ".txt", ""]}[fmt])
+            stem = rng.choice(["household", "My Form", "form.v2"])
+            try:
+                o, used_stem = convert_odd_path(sheets, fmt, stem, suffix, dict(form.args))
+            except Exception as e:  # noqa: BLE001
+                ctx.ctr("odd_path_render_error")
+                o = None
+            if o is not None:
+                ref = drive.call_convert(render.to_dict(sheets, fallback_form_name=used_stem), **form.args)
+                ctx.ctr("renderings_compared")
+                ctx.ctr("odd_suffix_paths")
+                ctx.case(sig=f"{sig}|{fmt}|oddpath{suffix}")
+                d = outcome_diff(ref, o)
+                if d:
+                    ctx.viol(f"differs:{fmt}:path-odd-suffix:{d[0]}", f"[{fmt} saved as {stem + suffix!r}] differs from dict reference (fallback name {used_stem!r}) in {d[0]}: {d[1]}"[:900],
+                             common.witness(form, fmt=fmt, channel="path", variant=f"odd-suffix{suffix}", sheets=_jsonable(sheets)))
         # (3) empty runs
         k = rng.choice([1, 2, 59, 60, 60])
         sh = rng.choice([s for s in ("survey", "choices") if s in sheets and len(sheets[s][1]) > 1])
